@@ -8,8 +8,8 @@ Model: `TLVerif/Codec/Json.lean` (`writeJson` / `readJson`, tied to the generate
 * `json_valid` — proved for every descriptor, type and value: what the writer produces, printed, is an RFC 8259 JSON text.
   String escaping is the hypothesis `EscOK esc` (the escaper's model belongs to C34).
 * The round-trip half of the property **fails on the real code** (and therefore in the model, which follows the code):
-  `JsonRoundTrip` is the full-strength statement, `json_roundtrip_fails_at_neg_zero` / `…_nan_payload` are proved
-  counter-examples (leads L2, L3 of DESIGN §6); further failures found by the check (dictionary keys that are not
+  `JsonRoundTrip` is the full-strength statement, `json_roundtrip_fails_at_nan_payload` is a proved counter-example (lead L3 of
+  DESIGN §6; L2 — −0.0 treated as empty — was repaired in the generator: `float_empty_iff_zero_bits`, `neg_zero_unmasked_field_roundtrips`); further failures found by the check (dictionary keys that are not
   valid UTF-8, nil recursive pointers) are recorded in `known_findings.json`; keys that merely need escaping read back
   unescaped both in the model and — since the repair of F2 in /repo 540af2db — in the code.
   What is proved of the positive direction: the primitive round trips below (`prim_roundtrip_*`: all integers, all strings,
@@ -44,21 +44,31 @@ def dFloat : Desc :=
   { insts := #[.prim .f32, .struct { tag := 1, nparams := 0, fields := [{ name := "x", ty := 0, bare := true, mask := none, tl2bit := none, isBit := false, natArgs := [] }] }],
     tlnames := #["float", "t"] }
 
-/-- **L2.** −0.0 in an unmasked float field is omitted by the writer (`x != 0` is false in Go) and reads back as +0.0:
-the TL1 encoding changes. -/
-theorem json_roundtrip_fails_at_neg_zero : ¬ JsonRoundTrip dFloat := by
-  intro h
-  obtain ⟨v', hr, _, ht⟩ := h 4 1 [] (.struct [some (.nat 0x80000000)]) (.obj []) (by rfl)
-  have hv : v' = .struct [some (.nat 0)] := by
-    have : readJson dFloat false parseJson 4 1 [] (some (.obj [])) = .ok (.struct [some (.nat 0)]) := by rfl
-    rw [this] at hr
-    cases hr
-    rfl
-  subst hv
-  have h1 : writeTL1 dFloat 4 1 true [] (.struct [some (.nat 0)]) = .ok [0, 0, 0, 0] := by rfl
-  have h2 : writeTL1 dFloat 4 1 true [] (.struct [some (.nat 0x80000000)]) = .ok [0, 0, 0, 0x80] := by rfl
-  rw [h1, h2] at ht
-  cases ht
+/-- **Float emptiness is the bit pattern** (former finding L2, repaired in the generator: `x != 0 || 1/x < 0`): a float32 / float64
+value is "empty" — omitted where empty values are omitted — iff its bits are zero; −0.0 (`0x80000000`, `0x8000…0`) is not empty. -/
+theorem float_empty_iff_zero_bits (d : Desc) (fuel ty : Nat) (k : PrimK) (n : Nat) (hd : d.get? ty = some (.prim k))
+    (hk : k = .f32 ∨ k = .f64) : emptyCond d (fuel + 1) ty (.nat n) = some (n != 0) := by
+  unfold emptyCond
+  rcases hk with rfl | rfl <;> simp [hd]
+
+/-- −0.0 is written as the number `-0` and reads back with its sign bit, for both float widths -/
+theorem prim_roundtrip_neg_zero :
+    writePrimJ .f32 (.nat 0x80000000) = .ok (.num ['-', '0']) ∧ readPrimJ .f32 (some (.num ['-', '0'])) = .ok (.nat 0x80000000) ∧
+    writePrimJ .f64 (.nat 0x8000000000000000) = .ok (.num ['-', '0']) ∧
+    readPrimJ .f64 (some (.num ['-', '0'])) = .ok (.nat 0x8000000000000000) := ⟨rfl, rfl, rfl, rfl⟩
+
+/-- the old L2 witness now round-trips: −0.0 in an unmasked float field is written explicitly (`{"x":-0}`), read back with the
+same bits, and re-encodes to the same JSON and TL1 -/
+theorem neg_zero_unmasked_field_roundtrips :
+    ∃ j v', writeJson dFloat 4 1 [] (.struct [some (.nat 0x80000000)]) = .ok j ∧ j = .obj [(strBytes "x", .num ['-', '0'])] ∧
+      readJson dFloat false parseJson 4 1 [] (some j) = .ok v' ∧ v' = .struct [some (.nat 0x80000000)] ∧
+      writeJson dFloat 4 1 [] v' = .ok j ∧
+      writeTL1 dFloat 4 1 true [] v' = writeTL1 dFloat 4 1 true [] (.struct [some (.nat 0x80000000)]) :=
+  ⟨_, _, rfl, rfl, rfl, rfl, rfl, rfl⟩
+
+/-- +0.0 (bits 0) is still omitted and still read back as bits 0 -/
+example : writeJson dFloat 4 1 [] (.struct [some (.nat 0)]) = .ok (.obj []) ∧
+    readJson dFloat false parseJson 4 1 [] (some (.obj [])) = .ok (.struct [some (.nat 0)]) := ⟨rfl, rfl⟩
 
 /-- **L3.** A NaN whose payload differs from Go's `math.NaN()` is written as `"NaN"` and reads back with the canonical payload. -/
 theorem json_roundtrip_fails_at_nan_payload : ¬ JsonRoundTrip dFloat := by
